@@ -123,6 +123,8 @@ class Printer:
             elif k == 'TKN':
                 from . import front
                 out.extend(front.tk_flat(t[1], self.resolve, self.known))
+            elif k in ('PSYM', 'ATOM'):
+                out.append(t)     # an undecided spelling / node: one atom, the same on the input and the output side
             elif k == 'COMPILE_ERROR':
                 o = 'macro'
                 self.punct(out, '::', o); self.ident(out, 'core', False, o); self.punct(out, '::', o)
